@@ -115,6 +115,10 @@ fn acct_plans(prop: &'static str, thorough: bool) -> Vec<Plan> {
         o.recover_forced = true;
         o.reply_faults = true;
         o.oracle_faults = prop == "C15";
+        if prop == "C15" {
+            // a dust request: at a rate below one its share of the staked total rounds to zero
+            o.unstake = vec![Frac::All, Frac::Third, Frac::Fixed(1)];
+        }
         let mut sc = mk(&format!("acct-{}-{}", prop, k.name), vec![prop], seeds, Box::new(move |s| std_menu(s, &o)));
         sc.goal = Some(Box::new(|pre, a, ap, post| {
             let mut g = vec![];
@@ -492,6 +496,7 @@ fn life_plans(thorough: bool) -> Vec<Plan> {
             ("fresh", small_funds(|| seed_fresh(&k), 0)),
             ("two_stakes", small_funds(|| seed_two_stakes(&k), 0)),
             ("rate_up", small_funds(|| seed_rate_up(&k), 0)),
+            ("rate_down", small_funds(|| seed_rate_down(&k), 0)),
             ("ten_batches", small_funds(|| seed_ten_batches(&k), 0)),
             ("eight_submitted", small_funds(|| seed_n_batches(&k, 8, false, false), 0)),
             ("far_future", small_funds(|| seed_far_future(&k), 0)),
@@ -504,7 +509,7 @@ fn life_plans(thorough: bool) -> Vec<Plan> {
     o.stakers = vec![];
     o.stake_amts = vec![];
     o.rewards = vec![];
-    o.unstake = vec![Frac::Fixed(20)];
+    o.unstake = vec![Frac::Fixed(20), Frac::Fixed(1)];
     o.unstakers = vec![u(1), u(2)];
     o.funded_variants = true;
     o.time_boundaries = true;
